@@ -34,7 +34,11 @@ def decOracle (j : Json) (base : Nat) : Except String Oracle := do
   let eq ← pairs j "eq"
   let relBad ← pairs j "rel_bad"
   let fresh ← strs j "fresh"
+  -- the Section found by the link the receiver of a link assignment has stored already
+  let oldT ← DrvHeap.optNat j "old_target"
+  let recv ← DrvHeap.optNat j "x"
   pure { ty := fun i => ty.getD i "",
+         oldLink := fun i => if some i = recv then oldT else none,
          secOk := fun a b => !secBad.contains (a, b),
          propOk := fun a b => !propBad.contains (a, b),
          eq := fun a b => eq.contains (a, b),
@@ -72,7 +76,8 @@ def snapshotX (s : X) : Json :=
           ("secs", jarr (n.secs.map jnat)), ("props", jarr (n.props.map jnat)),
           ("merged", match (if n.kind = .sec then s.merged i else none) with
                      | none => Json.null | some p => jnat p),
-          ("link", jbool (n.kind = .sec && s.link i))])
+          ("link", jbool (n.kind = .sec && s.link i)),
+          ("doc", DrvHeap.docJson s.h i)])
 
 def runTraceX (fuel : Nat) (ops : List Json) : Except String Json := do
   let rec go (s : X) : List Json → Except String (List Json)
